@@ -9,6 +9,9 @@ ASSUMPTIONS = [
     "(3) parse_cable_concatenation for { P1 , P2 } (tokens and parse_variable_instantiation stubbed: each piece an arbitrary "
     "identifier / bit-select / part-select of either of two 2-bit cables with symbolic base index): the wires returned are P1's bits "
     "most significant first, then P2's bits most significant first (list.sort with a key is encoded as a stable rank computation)",
+    "(4) connect_implicitly_mapped_ports (positional map) and parse_port_map_single (named map; create_or_update_port_on_instance "
+    "stubbed to return the instance's pins of the port) for an expression of 1 or 2 bits on a two-bit port: bit k of the expression, "
+    "counted from its least significant end, joins port bit k; port bits above the expression stay open",
     "outside: module-level glue, header/body port merging, late growth of cables (create_or_update_cable), parameters, attributes, "
     "black-box election, whole files",
 ]
@@ -18,4 +21,6 @@ def jobs(tier):
     return [dict(name="C06/reader-kernels", engine="E1/symheap", module="vf.e1.verilog_jobs",
                  func="reader_kernels_job", timeout=1500, args=dict(tier=tier)),
             dict(name="C06/concat-read", engine="E1/symheap", module="vf.e1.verilog_jobs",
-                 func="concat_read_job", timeout=1500, args=dict(tier=tier))]
+                 func="concat_read_job", timeout=1500, args=dict(tier=tier))] + [
+            dict(name="C06/port-map/%s" % k, engine="E1/symheap", module="vf.e1.verilog_jobs", func="port_map_job",
+                 timeout=1500, args=dict(tier=tier, kind=k)) for k in ("positional", "named")]
